@@ -197,8 +197,12 @@ def run_prim(prog: Program, impl: str, prim: str, present: set, typ, n1: bool,
             todo.append(tuple(w.trace[:i]) + (not w.trace[i],))
         if len(results) > 8:
             raise AnalysisError(f"too many symbolic paths in {prim}")
-    # primitives are expected to be single-path (no python control flow on values)
+    # python-level branching on a symbolic comparison is merged back into one term:
+    # `x if c else y` / `if c: ... else: ...`  ==  ite(c, x, y)
+    merged = _merge_paths(results)
     trace, out, raised, events, assumptions = results[0]
+    if merged is not None:
+        out, raised = merged
     evs = []
     for tr, o, ra, ev, asm in results:
         evs += [(e.kind, e.where, e.detail) for e in ev]
@@ -209,9 +213,43 @@ def run_prim(prog: Program, impl: str, prim: str, present: set, typ, n1: bool,
                  evs, raised, terms, where, paths=len(results))
     if out is not None and not isinstance(out, TV):
         pr.raised = f"returns a non-symbolic value {out!r}"
-    for tr, o, ra, ev, asm in results[1:]:
-        pr.alt_terms.append((o.t if isinstance(o, TV) else None, ra, [a[0] for a in asm], tr))
+    if merged is None:
+        for tr, o, ra, ev, asm in results[1:]:
+            pr.alt_terms.append((o.t if isinstance(o, TV) else None, ra, [a[0] for a in asm], tr))
     return pr
+
+
+def _merge_paths(results):
+    """(TV, raised) for the ite-tree of all paths, or None if it cannot be built"""
+    if len(results) == 1:
+        return None
+
+    def build(items, depth):
+        # items: list of (assumptions, out, raised)
+        if len(items) == 1 and len(items[0][0]) <= depth:
+            return items[0][1], items[0][2]
+        conds = {a[0][depth][0] for a in items if len(a[0]) > depth}
+        if len(conds) != 1 or any(len(a[0]) <= depth for a in items):
+            raise ValueError("paths do not form a decision tree")
+        cond = conds.pop()
+        if not (E.is_term(cond) and cond[0] == "cmp"):
+            raise ValueError("decision on a non-comparison")
+        yes = [a for a in items if a[0][depth][1]]
+        no = [a for a in items if not a[0][depth][1]]
+        if not yes or not no:
+            raise ValueError("one-sided decision")
+        (ty, ry), (tn, rn) = build(yes, depth + 1), build(no, depth + 1)
+        if ry or rn:
+            return None, (ry or rn)
+        if not isinstance(ty, TV) or not isinstance(tn, TV):
+            raise ValueError("non-symbolic branch value")
+        return TV(("ite", cond, ty.t, tn.t), max(ty.rank or 0, tn.rank or 0), ty.fresh and tn.fresh), None
+
+    try:
+        items = [(asm, out, raised) for (tr, out, raised, ev, asm) in results]
+        return build(items, 0)
+    except ValueError:
+        return None
 
 
 def spec_term(prim: str, terms: dict):
